@@ -100,6 +100,9 @@ fn case_t<T: Sc>(rng: &mut Rng, case: u64, out: &mut CaseOut, ops: &OpLog) {
     let lm = cfg.make::<T>();
     out.seen("relation", if n < total { "N<M+P" } else if n == total { "N=M+P" } else if n == total + 1 { "N=M+P+1" } else { "N>M+P+1" });
     out.seen("scalar", T::NAME);
+    if case < 16 {
+        out.sample(json!({"N": n, "M": m, "P": p, "scalar": T::NAME, "basis": spec.model.spec().map(|s| s.to_json())}));
+    }
 
     // twin: plain fit to learn whether the fit itself succeeds and how many model calls it makes
     ops.op(&format!("twin fit N={n} M={m} P={p} {}", T::NAME));
